@@ -94,10 +94,22 @@ def global_attr_violations(model: Model, files=None, dead: Optional[Dict[str, st
     for rel, fi in model.files.items():
         if files is not None and rel not in files:
             continue
+        # names bound (anywhere in the file) to the result of a call into an external module (`logger = logging.getLogger(..)`,
+        # `path = pathlib.Path(..)`): objects of foreign types, whose attributes are not the repository's to define
+        ext_bound = set()
+        for a_ in ast.walk(fi.tree):
+            if isinstance(a_, ast.Assign) and isinstance(a_.value, ast.Call):
+                r_ = a_.value.func
+                while isinstance(r_, (ast.Attribute, ast.Call)):
+                    r_ = r_.value if isinstance(r_, ast.Attribute) else r_.func
+                if isinstance(r_, ast.Name) and r_.id in fi.aliases and model.resolve_module(fi, r_.id) is None:
+                    ext_bound |= {t_.id for t_ in a_.targets if isinstance(t_, ast.Name)}
         for n in ast.walk(fi.tree):
             if not (isinstance(n, ast.Attribute) and isinstance(n.ctx, ast.Load)):
                 continue
             n_checked += 1
+            if isinstance(n.value, ast.Name) and n.value.id in ext_bound:
+                continue
             # module alias receiver: must be defined in that module
             if isinstance(n.value, ast.Name):
                 m = model.resolve_module(fi, n.value.id)
